@@ -50,6 +50,7 @@ type FleetPlan struct {
 	ReadyAfter time.Duration // instances become running this long after creation
 	NeverReady int           // this many of the created instances never become running
 	PageSize   int           // DescribeInstanceStatusPages page size (>=1)
+	StaggerMod int           // >1: instance i becomes running (i % StaggerMod) seconds later than ReadyAfter
 }
 
 // FleetReq is the part of a CreateFleet request that matters, recorded in the journal.
@@ -484,6 +485,10 @@ func (c *ec2Client) CreateFleet(in *ec2.CreateFleetInput) (*ec2.CreateFleetOutpu
 	for i := int64(0); i < count; i++ {
 		inst := c.a.NewInstance("")
 		inst.ReadyAt = time.Now().Add(plan.ReadyAfter)
+		if plan.StaggerMod > 1 {
+			// later ids first, so that a running instance can be listed before a pending one
+			inst.ReadyAt = inst.ReadyAt.Add(time.Duration((count-1-i)%int64(plan.StaggerMod)) * time.Second)
+		}
 		if int(i) < plan.NeverReady {
 			inst.Never = true
 		}
